@@ -15,7 +15,7 @@ From Coq Require Import Reals ZArith.
 From Coquelicot Require Import Complex.
 From Flocq Require Import Core.Raux.
 From Verif Require Import lib.C07_Base C07.Model C07.ProofsBasic C07.ProofsGabor C07.ProofsGammatone
-  C07.ProofsTri C07.ProofsLoops C07.ProofsExtra C07.Refuted gen.C07Filters C07.Tie C07.ProofsExamples.
+  C07.ProofsTri C07.ProofsTermination C07.ProofsLoops C07.ProofsExtra C07.Refuted gen.C07Filters C07.Tie C07.ProofsExamples.
 Open Scope R_scope.
 
 (** * "the impulse response is real exactly when is_real" (dtype level) *)
@@ -101,6 +101,28 @@ Theorem gammatone_search_sound : forall fuel eps c alpha n max_centered r,
   gt_habs c alpha n (gt_offset max_centered n alpha) r <= eps.
 Proof. exact gt_search_result_l. Qed.
 Print Assumptions gammatone_search_sound.
+
+(* ... and the search TERMINATES: within gt_fuel_bound iterations (every step moves right by at
+   least exp(alpha offset)/alpha; the envelope is below eps beyond c (n/alpha)^n / eps) *)
+Theorem gammatone_search_terminates : forall eps c alpha n max_centered,
+  0 < eps -> 0 < c -> 0 < alpha -> (2 <= n)%nat ->
+  let offset := gt_offset max_centered n alpha in
+  exists r, gt_newton (gt_fuel_bound eps c alpha n offset) eps c alpha n offset
+              (gt_newton_start alpha n) = Some r.
+Proof. exact gt_search_terminates_l. Qed.
+Print Assumptions gammatone_search_terminates.
+
+(* total correctness of _calculate_temp_support's loop: one answer for every sufficient fuel,
+   beyond the mode, and the envelope stays below eps from there on *)
+Theorem gammatone_search_total : forall eps c alpha n max_centered,
+  0 < eps -> 0 < c -> 0 < alpha -> (2 <= n)%nat ->
+  let offset := gt_offset max_centered n alpha in
+  exists r, (forall k, gt_newton (gt_fuel_bound eps c alpha n offset + k) eps c alpha n offset
+                         (gt_newton_start alpha n) = Some r) /\
+            (INR n - 1) / alpha <= r - offset /\
+            (forall t, r <= t -> gt_habs c alpha n offset t <= eps).
+Proof. exact gt_search_total_l. Qed.
+Print Assumptions gammatone_search_total.
 
 Theorem gammatone_ir_outside_supports : forall fuel eps c alpha xi n max_centered r W j,
   0 < eps -> 0 < c -> 0 < alpha -> (2 <= n)%nat ->
